@@ -28,7 +28,9 @@ def built(r):
 
 def campaign(chk, prof, n, observables, oracle=None, nontrivial=None, label="", seed_shift=0, extra_projects=(), keep_status=("ok",)):
     """returns list of (project, impl, model) for further use"""
-    projects = list(extra_projects) + [projgen.gen_project(chk.seed + seed_shift, i, prof) for i in range(n)]
+    corpus = [c["project"] for c in common.load_corpus(chk.prop) if "project" in c and not c.get("pair")] if not label else []
+    chk.count("corpus-cases", len(corpus)) if corpus else None
+    projects = corpus + list(extra_projects) + [projgen.gen_project(chk.seed + seed_shift, i, prof) for i in range(n)]
     results = projrun.run_projects(projects)
     for p, r, m in results:
         st = projrun.impl_status(r)
